@@ -10,6 +10,7 @@ from fontTools import ttLib
 from fontTools.ttLib.tables import otBase
 from fontTools.ttLib.tables import otTables as ot
 from abc import ABC, abstractmethod
+from copy import copy
 from dataclasses import dataclass
 from collections import deque
 from typing import (
@@ -287,6 +288,17 @@ def reorderGlyphs(font: ttLib.TTFont, new_glyph_order: List[str]):
         if tag in font:
             cff_table = font[tag]
             charstrings = cff_table.cff.topDictIndex[0].CharStrings.charStrings
+            fdSelect = getattr(cff_table.cff.topDictIndex[0], "FDSelect", None)
+            if fdSelect is not None and len(fdSelect):
+                # FDSelect is indexed by glyph ID: permute it along with the glyphs.
+                # Assign a copy, as the lazily loaded charstrings still look up
+                # their font dict through the original object and the old indices.
+                old_gids = {g: i for i, g in enumerate(old_glyph_order)}
+                new_fdSelect = copy(fdSelect)
+                new_fdSelect.gidArray = [
+                    fdSelect.gidArray[old_gids[g]] for g in new_glyph_order
+                ]
+                cff_table.cff.topDictIndex[0].FDSelect = new_fdSelect
             cff_table.cff.topDictIndex[0].charset = new_glyph_order
             cff_table.cff.topDictIndex[0].CharStrings.charStrings = {
                 k: charstrings.get(k) for k in new_glyph_order
